@@ -234,6 +234,20 @@ class ListV:
         return f"ListV({self.items})"
 
 
+class SymListV:
+    """mutable list = immutable symbolic prefix (SeqV, arbitrary length) + concrete tail;
+    models a list in the middle of a loop that only ever appends"""
+
+    __slots__ = ("prefix", "items")
+
+    def __init__(self, prefix, items=()):
+        self.prefix = prefix
+        self.items = list(items)
+
+    def __repr__(self):
+        return f"SymListV(prefix n={self.prefix.n}, tail={self.items})"
+
+
 class SetV:
     """mutable set with concrete shape (elements pairwise compared symbolically);
     frozen=True for frozenset"""
